@@ -493,9 +493,6 @@ func (r *Resolver) resolveOne(ctx context.Context, name, typ string) ([]any, err
 		cache.Remove(key)
 		return nil, err
 	}
-	if len(res) == 0 {
-		ttl = 300
-	}
 	v.expiration = timeNow().Add(time.Second * time.Duration(ttl))
 	v.result = res
 	return res, nil
@@ -525,10 +522,12 @@ func (r *Resolver) resolveOneNoCache(ctx context.Context, name, typ string) ([]a
 		return nil, 0, fmt.Errorf("%s (%s): response code %d", name, typ, rc)
 	}
 	var res []any
-	var ttl uint32
+	// The TTL of the response is the smallest TTL of its records. Responses
+	// without any answer record are kept for 300 seconds.
+	ttl := uint32(300)
 	want := strings.TrimSuffix(name, ".")
-	for _, a := range result.Answer {
-		if ttl == 0 || ttl > a.TTL {
+	for i, a := range result.Answer {
+		if i == 0 || ttl > a.TTL {
 			ttl = a.TTL
 		}
 		name := strings.TrimSuffix(a.Name, ".")
